@@ -184,6 +184,16 @@ func scribble(bufs ...[]byte) {
 	}
 }
 
+func wipeTokens(ts []tokens.Token) {
+	for _, t := range ts {
+		for _, b := range [][]byte{t.Nonce, t.Context, t.KeyID, t.Authenticator} {
+			for i := range b {
+				b[i] = 0xDD
+			}
+		}
+	}
+}
+
 func buildFlow(p P) flow {
 	chal, nonce := inputOf(p)
 	oc, on := mc.Fill(p.Seed, "c11-unrelated-chal", 40), mc.Fill(p.Seed, "c11-unrelated-nonce", 32)
@@ -209,7 +219,15 @@ func buildFlow(p P) flow {
 					if err != nil {
 						return nil, err
 					}
-					return t.Marshal(), nil
+					out := t.Marshal()
+					// "on every run": the caller overwrites the token it was given and finalizes the same
+					// response again; the second token must be byte-identical to the first
+					wipeTokens([]tokens.Token{t})
+					t2, err := st.FinalizeToken(resp)
+					if err != nil || !bytes.Equal(t2.Marshal(), out) {
+						return nil, fmt.Errorf("a second finalization (after the caller overwrote the first token) does not reproduce the token: %v", err)
+					}
+					return out, nil
 				}}, nil
 			},
 			unrelated: func() error {
@@ -238,7 +256,13 @@ func buildFlow(p P) flow {
 				if err != nil {
 					return nil, err
 				}
-				return t.Marshal(), nil
+				out := t.Marshal()
+				wipeTokens([]tokens.Token{t})
+				t2, err := st.FinalizeToken(resp)
+				if err != nil || !bytes.Equal(t2.Marshal(), out) {
+					return nil, fmt.Errorf("a second finalization (after the caller overwrote the first token) does not reproduce the token: %v", err)
+				}
+				return out, nil
 			}}, nil
 		}
 		ev := func(req []byte) ([]byte, error) { return wireErr(w.EvaluateWire(req)) }
@@ -289,7 +313,13 @@ func buildFlow(p P) flow {
 					if len(ts) != p.Batch {
 						return nil, fmt.Errorf("%d tokens for %d nonces", len(ts), p.Batch)
 					}
-					return catTokens(ts), nil
+					out := catTokens(ts)
+					wipeTokens(ts)
+					ts2, err := st.FinalizeTokens(resp)
+					if err != nil || !bytes.Equal(catTokens(ts2), out) {
+						return nil, fmt.Errorf("a second finalization (after the caller overwrote the first tokens) does not reproduce the tokens: %v", err)
+					}
+					return out, nil
 				}}, nil
 			},
 			unrelated: func() error {
